@@ -27,9 +27,9 @@ EST = ("[any-guard] INV-EST-A1: size estimates are sums of display widths of doc
 R = [
     # ---- sites whose operands get their magnitude through a closure passed to an iterator adaptor (the magnitude
     #      analysis follows closure results since the soundness correction recorded in DESIGN section 9)
-    (r"append_columns_with_borders:Add\(pos, \(w \+ 1_usize\)\)$", SBS + "; pos is a running sum of (w + 1) over the columns"),
-    (r"append_columns_with_borders:Add\(pos, w\)$", SBS),
-    (r"append_columns_with_borders:Add\(w, 1_usize\)$", SBS),
+    (r"append_columns_with_borders:Add\(pos, \(w \+ 1_usize\)\)$", "[any-guard] " + SBS + "; pos is a running sum of (w + 1) over the columns"),
+    (r"append_columns_with_borders:Add\(pos, w\)$", "[any-guard] " + SBS),
+    (r"append_columns_with_borders:Add\(w, 1_usize\)$", "[any-guard] " + SBS),
     (r"^RenderTable::calc_size_estimate:Add\(<std::vec::Vec<T, A> as std::ops::IndexMut<I>>::index_mut\(&mut sizes", EST),
     (r"^RenderTable::calc_size_estimate:Add\(Iterator::sum\(", EST),
     (r"^RenderTable::calc_size_estimate:sum\(", EST),
